@@ -524,6 +524,58 @@ def g_submodule_clash(rnd):
     return files
 
 
+def g_case_siblings(rnd):
+    """sibling names that are equal ignoring case (in containers, lists, choices, the module root, augmented in from
+    another module): renderings must still list them in one fixed order"""
+    def variants(stem, k):
+        vs = [stem, stem.upper(), stem.capitalize(), stem[0] + stem[1:].upper()]
+        return rnd.sample(vs, k)
+    body = ""
+    for nm in variants("mtu", rnd.randint(2, 4)):
+        body += "  leaf %s { type string; }\n" % nm
+    inner = "".join("    leaf %s { type int8; }\n" % nm for nm in variants("name", rnd.randint(2, 4)))
+    body += "  container c {\n%s    leaf other { type string; }\n  }\n" % inner
+    ks = variants("key", 3)
+    body += "  list li { key %s; %s }\n" % (ks[0], " ".join("leaf %s { type string; }" % k for k in ks))
+    body += "  choice ch { %s }\n" % " ".join("case %s { leaf in_%s { type string; } }" % (v, v) for v in variants("opt", rnd.randint(2, 3)))
+    files = [mod("cs", body)]
+    for i in range(rnd.randint(1, 2)):
+        files.append(mod("ca%d" % i, "  augment /cs:c { leaf %s { type string; } }\n" % rnd.choice(["NAME%d" % i, "OTHER", "Other"]) +
+                         "  augment /cs:c { leaf %s { type string; } }\n" % ("nAmE%d" % i), imports=[("cs", "cs")]))
+    return files
+
+
+def g_late_errors(rnd):
+    """sets whose only errors come from the last phases of Process (augment without target or into a leaf, two augments
+    adding one node, deviation without target, deviate add/delete/replace violations), or that depend on the
+    IgnoreDeviateNotSupported option: repeated GetModule calls must keep giving the answer of a fresh set"""
+    files = [mod("t", '  container c { leaf l { type string; default "a"; } leaf m { type string; } }\n'
+                      '  leaf-list ll { type string; max-elements 5; }\n')]
+    kinds = ["  augment /t:nowhere { leaf x { type string; } }\n",
+             "  augment /t:c/t:l { leaf x { type string; } }\n",
+             "  augment /t:c { leaf m { type string; } }\n",
+             "  deviation /t:gone { deviate not-supported; }\n",
+             '  deviation /t:c/t:l { deviate add { default "b"; } }\n',
+             '  deviation /t:c/t:m { deviate delete { default "zz"; } }\n',
+             "  deviation /t:ll { deviate delete { max-elements 7; } }\n",
+             "  deviation /t:c/t:m { deviate not-supported; }\n",
+             "  deviation /t:c { deviate not-supported; }\n  augment /t:c { leaf ok { type string; } }\n",
+             "  augment /t:c { leaf fine { type string; } }\n"]
+    for i in range(rnd.randint(1, 3)):
+        files.append(mod("le%d" % i, "".join(rnd.sample(kinds, rnd.randint(1, 2))), imports=[("t", "t")]))
+    return files
+
+
+def g_many_revisions(rnd):
+    """2..4 revisions of one module (one namespace), an importer: whatever is asked about the namespace gets one answer"""
+    revs = rnd.sample(["2018-03-03", "2019-01-01", "2020-01-01", "2021-01-01", "2022-06-06"], rnd.randint(2, 4))
+    files = [mod("m", "  leaf in_%s { type string; }\n" % r.replace("-", "_"), rev=r) for r in revs]
+    if rnd.random() < 0.3:
+        files.append(mod("m", "  leaf undated { type string; }\n"))
+    files.append(mod("imp", "  leaf x { type string; }\n", imports=[("m", "m")]))
+    return files
+
+
 def g_random(rnd):
     return files_of_schema(sg.random_schema(rnd, n_modules=rnd.randint(2, 4)))
 
@@ -562,16 +614,19 @@ GENS = [("random", g_random, 8), ("random-faulty", g_random_faulty, 3), ("identi
         ("two-revisions", g_two_revisions, 1), ("typedefs", g_typedefs, 1),
         ("ident-shared-prefix", g_ident_shared_prefix, 2), ("typedef-cycles", g_typedef_cycles, 2), ("rev-norev", g_rev_norev, 2),
         ("posix-patterns", g_posix_patterns, 2), ("identity-rings", g_identity_rings, 2), ("superseded", g_superseded, 2),
-        ("deferred-augments", g_deferred_augments, 2), ("submodule-clash", g_submodule_clash, 2)]
+        ("deferred-augments", g_deferred_augments, 2), ("submodule-clash", g_submodule_clash, 2),
+        ("case-siblings", g_case_siblings, 2), ("late-errors", g_late_errors, 2), ("many-revisions", g_many_revisions, 2)]
 # families whose defects only show as a difference between runs with the SAME input: more repeats
 REPEATS = {"ident-shared-prefix": 6, "typedef-cycles": 6, "rev-norev": 5, "identities": 5, "posix-patterns": 6, "typedefs": 5,
-           "identity-rings": 6, "deferred-augments": 8, "submodule-clash": 8}
+           "identity-rings": 6, "deferred-augments": 8, "submodule-clash": 8,
+           "case-siblings": 6, "many-revisions": 6}
 # how many orders of a case are also run with a Process in between (default 1)
 INCREMENTAL = {"superseded": 6, "rev-norev": 3, "two-revisions": 3}
 # always present, whatever the seed draws
 CORPUS = [("ident-shared-prefix", g_ident_shared_prefix, 6), ("typedef-cycles", g_typedef_cycles, 6), ("rev-norev", g_rev_norev, 4),
           ("posix-patterns", g_posix_patterns, 6), ("identity-rings", g_identity_rings, 6), ("superseded", g_superseded, 4),
-          ("deferred-augments", g_deferred_augments, 8), ("submodule-clash", g_submodule_clash, 8)]
+          ("deferred-augments", g_deferred_augments, 8), ("submodule-clash", g_submodule_clash, 8),
+          ("case-siblings", g_case_siblings, 6), ("late-errors", g_late_errors, 8), ("many-revisions", g_many_revisions, 6)]
 
 
 def go_line(files, opts="-", order=None):
@@ -754,6 +809,91 @@ def metamorphic(res, cases, rnd, k, max_perms):
     return stats
 
 
+# ============================================================================ part 2b: what the dump does not show
+def probe_line(files, opts="-", order=None):
+    order = list(range(len(files))) if order is None else order
+    toks = ["c05probe", opts, str(len(files))]
+    for i in order:
+        toks += [hx(files[i][0]), hx(files[i][1])]
+    return " ".join(toks)
+
+
+def probe_problems(j):
+    """inside one observation: two prints of one entry agree, two namespace lookups agree, GetModule keeps answering as a
+    fresh set would"""
+    out = []
+    for k, v in (j.get("print") or {}).items():
+        if v[1] != "true":
+            out.append("two Entry.Print calls on module %s give different text" % k)
+    for ns, v in (j.get("byns") or {}).items():
+        if v[0] != v[1]:
+            out.append("FindModuleByNamespace(%s) answers %s, then %s" % (ns, v[0][:80], v[1][:80]))
+    for k, r in (j.get("getmod") or {}).items():
+        if not (r["first"] == r["second"] == r["fresh"]):
+            out.append("GetModule(%s): first call %s; second call %s; fresh set %s" % (k, r["first"][:120], r["second"][:120], r["fresh"][:120]))
+        if r["flipped"] != r["fresh_flipped"]:
+            out.append("GetModule(%s) after flipping IgnoreDeviateNotSupported: %s; fresh set with that option: %s" %
+                       (k, r["flipped"][:120], r["fresh_flipped"][:120]))
+    return out
+
+
+def probe_part(res, cases, rnd, k, max_perms):
+    lines, index = [], []
+    for ci, (gen, files, opts) in enumerate(cases):
+        n = len(files)
+        for _ in range(max(k, REPEATS.get(gen, 0))):
+            lines.append(probe_line(files, opts))
+            index.append((ci, list(range(n))))
+        for p in orders_for(n, rnd, max_perms):
+            lines.append(probe_line(files, opts, p))
+            index.append((ci, p))
+    tmp = tempfile.mkdtemp(prefix="c05p-")
+    try:
+        outs = lib.run_go(lines, cwd=tmp)
+    finally:
+        shutil.rmtree(tmp, ignore_errors=True)
+    stats = dict(cases=len(cases), runs=len(lines), differing_cases=0, internal_problems=0, getmodule_answers=0, namespace_lookups=0,
+                 namespace_clashes=0, prints=0, signatures={})
+    per = {}
+    for (ci, order), o in zip(index, outs):
+        per.setdefault(ci, []).append((order, o))
+    reported = {}
+    for ci, (gen, files, opts) in enumerate(cases):
+        runs = per[ci]
+        parsed = [(o, json.loads(x) if x.startswith("{") else dict(raw=x.split(" @")[0])) for o, x in runs]
+        j0 = parsed[0][1]
+        stats["getmodule_answers"] += 5 * len(j0.get("getmod") or {})
+        stats["namespace_lookups"] += len(j0.get("byns") or {})
+        stats["namespace_clashes"] += sum(1 for v in (j0.get("byns") or {}).values() if v[0].startswith("ERR"))
+        stats["prints"] += len(j0.get("print") or {})
+        what = None
+        for o, j in parsed:
+            probs = probe_problems(j)
+            if probs:
+                stats["internal_problems"] += 1
+                what = ("probe", probs[0], o, o, j, j)
+                break
+        if what is None:
+            for o, j in parsed[1:]:
+                if j != j0:
+                    stats["differing_cases"] += 1
+                    path, a, b = first_diff(j0, j)
+                    what = ("diff", "%s differ at %s: %s  vs  %s" % (
+                        "two runs in the SAME load order" if o == parsed[0][0] else "load orders %s and %s" % (parsed[0][0], o),
+                        path, json.dumps(a)[:200], json.dumps(b)[:200]), parsed[0][0], o, j0, j)
+                    break
+        if what is None:
+            continue
+        key = (gen, what[0], re.sub(r"\W+", " ", what[1])[:40])
+        stats["signatures"][str(key)] = stats["signatures"].get(str(key), 0) + 1
+        if key in reported or len(reported) >= 4:
+            continue
+        reported[key] = 1
+        res.violation("%s [generator %s, files %s]" % (what[1], gen, [n for n, _ in files]),
+                      dict(kind="probe", gen=gen, files=files, opts=opts, order_a=what[2], order_b=what[3], out_a=what[4], out_b=what[5]))
+    return stats
+
+
 # ============================================================================ part 3: the command
 def build_cli():
     os.makedirs(lib.WORK, exist_ok=True)
@@ -852,10 +992,11 @@ def run(res, tier, seed, proof):
     cases = gen_cases(rnd, 300 if quick else 16000)
     k, max_perms = (3, 8) if quick else (5, 23)
     mm = metamorphic(res, cases, rnd, k, max_perms)
-    cli_cases = cases[:82] if quick else cases[:1500]
+    pr = probe_part(res, cases[:220] if quick else cases[:4000], rnd, 3, 2)
+    cli_cases = cases[:102] if quick else cases[:1500]
     cli = cli_part(res, cli_cases, rnd, 3 if quick else 4, 4 if quick else 8)
     cov = dict(
-        evaluations=es_evals + mm["runs"] + cli["invocations"],
+        evaluations=es_evals + mm["runs"] + pr["runs"] + cli["invocations"],
         distinct_nontrivial=len({json.dumps(f) for _, f, _ in cases if len(f) > 1}) + es_stats["distinct_sets"],
         rule="(1) errorSort: lists of 0..40 error texts (positioned with canonical numerals; text-only; unpositioned messages of "
              "goyang; odd numerals 01/+1/-0/2^63/non-numeric; mixtures; duplicates; shuffles; the _refuted witnesses) through "
@@ -870,9 +1011,11 @@ def run(res, tier, seed, proof):
              "modules whose augments wait for a node grafted by a later-sorting module and go into that same node, one top-level "
              "name defined in two submodules of a module; the last eight also as a fixed corpus); every case additionally with a Process between two loads (final outcome = batch): each processed k times in one order and in all (<= 4 files, capped) or sampled load orders; all "
              "dumps byte-identical (ids included; id-only differences counted), error list ordered and duplicate-free.  (3) the "
-             "goyang command with --format tree/types on a prefix of the same sets, repeated and with permuted arguments.  "
+             "goyang command with --format tree/types on a prefix of the same sets, repeated and with permuted arguments.  (2b) the "
+             "c05probe command on the same sets: Entry.Print twice, FindModuleByNamespace twice per namespace, GetModule twice and "
+             "after flipping IgnoreDeviateNotSupported against fresh sets; compared inside one run, across repeats and load orders.  "
              "non-trivial = more than one file / distinct set of error texts",
-        errorsort=es_stats, metamorphic=mm, cli=cli, k_repeats=k, max_perms=max_perms,
+        errorsort=es_stats, metamorphic=mm, probe=pr, cli=cli, k_repeats=k, max_perms=max_perms,
         samples=[dict(gen=g, files=[n for n, _ in f]) for g, f, _ in cases[:3]])
     assumptions = [
         "reflect.DeepEqual on two error values of the same dynamic type built by errors.New / fmt.Errorf without %w is equality of "
@@ -921,6 +1064,24 @@ def replay(rep, res):
         for s, o in outs.items():
             print("order", o, "->", s[:600])
         return 0 if len(outs) == 1 else 1
+    if kind == "probe":
+        tmp = tempfile.mkdtemp(prefix="c05p-")
+        try:
+            orders = [rep["order_a"], rep["order_b"]] * 15
+            outs = lib.run_go([probe_line(files, rep.get("opts", "-"), o) for o in orders], cwd=tmp, shards=1)
+        finally:
+            shutil.rmtree(tmp, ignore_errors=True)
+        seen, bad = {}, False
+        for o, x in zip(orders, outs):
+            seen.setdefault(x, o)
+            if x.startswith("{"):
+                for pr_ in probe_problems(json.loads(x)):
+                    bad = True
+                    print("problem:", pr_)
+                    break
+        for x, o in seen.items():
+            print("order", o, "->", x[:500])
+        return 1 if (bad or len(seen) > 1) else 0
     if kind in ("metamorphic", "errlist"):
         tmp = tempfile.mkdtemp(prefix="c05-")
         try:
